@@ -130,6 +130,13 @@ def helper_kind(repo: Repo, name: str, depth: int = 0) -> Dict[str, Any]:
     if f is None or depth > 3:
         return out
     on_by_cmp = False
+    # the names that hold the normalised query range (whatever they are called)
+    rng = {k for k, v in local_aliases(f.node).items()
+           if isinstance(v, ast.Call) and attr_path(v.func) == ("get_desired_range",)}
+
+    def mentions_range(e: ast.AST) -> bool:
+        return any(isinstance(x, ast.Name) and x.id in rng for x in ast.walk(e)) or \
+            any(isinstance(x, ast.Call) and attr_path(x.func) == ("get_desired_range",) for x in ast.walk(e))
     for n in walk_no_nested(f.node):
         if isinstance(n, ast.Name):
             if n.id == "_address_interval":
@@ -139,14 +146,14 @@ def helper_kind(repo: Repo, name: str, depth: int = 0) -> Dict[str, Any]:
         if isinstance(n, ast.Attribute) and n.attr == "overlap":
             out["tree"] = True
         if isinstance(n, ast.Compare) and any(isinstance(o, ast.In) for o in n.ops) \
-                and "desired_range" in unparse(n.comparators[0]):
+                and mentions_range(n.comparators[0]):
             out["sel"] = "at"
         if isinstance(n, ast.Call) and attr_path(n.func) in (("max",), ("min",)):
             out["sel"] = out["sel"] or "on"
         if isinstance(n, ast.Attribute) and n.attr in ("end", "length"):
             out["sel"] = out["sel"] or "on"
         if isinstance(n, ast.Compare) and any(isinstance(o, (ast.Lt, ast.LtE, ast.Gt, ast.GtE)) for o in n.ops) \
-                and "desired_range" in unparse(n) and not any(isinstance(o, ast.In) for o in n.ops):
+                and mentions_range(n) and not any(isinstance(o, ast.In) for o in n.ops):
             on_by_cmp = True
         if isinstance(n, ast.Call):
             p = attr_path(n.func)
@@ -444,7 +451,8 @@ def delegation(chk: Check, cls: ClassInfo, name: str, over_ok: List[tuple], rule
     try:
         t = function_term(f)
     except OutsideFragment as e:
-        chk.ob(rule, key + ":delegates", False, f.loc(), "%s is not a union over children (%s)" % (key, e))
+        chk.ob(rule, key + ":delegates", False, f.loc(), "%s is not a union over children (%s)" % (key, e),
+               undecided=True)
         return
     param = f.param_names()[1]
     ok = False
@@ -461,7 +469,7 @@ def delegation(chk: Check, cls: ClassInfo, name: str, over_ok: List[tuple], rule
             why = "iterates %s" % show(over)
     chk.ob(rule, key + ":delegates", ok, f.loc(),
            "%s must be the union over its children of the same lookup with the same argument: %s"
-           % (key, why), 3)
+           % (key, why), 3, undecided=(t[0] != "union"))
 
 
 def _subst(o: Any, param: str) -> Any:
@@ -484,7 +492,8 @@ def kind_filter(chk: Check, cls: ClassInfo, name: str, base: str, klass: str, ru
     try:
         t = function_term(f)
     except OutsideFragment as e:
-        chk.ob(rule, key + ":filters", False, f.loc(), "%s is outside the fragment (%s)" % (key, e))
+        chk.ob(rule, key + ":filters", False, f.loc(), "%s is outside the fragment (%s)" % (key, e),
+               undecided=True)
         return
     param = f.param_names()[1]
     want = ("filter", ("call", ("attr", ("self",), base), (("param", param),)), klass)
@@ -494,7 +503,7 @@ def kind_filter(chk: Check, cls: ClassInfo, name: str, base: str, klass: str, ru
         return
     chk.ob(rule, key + ":filters", ok, f.loc(),
            "%s must be exactly the %s instances of self.%s(%s); it is %s"
-           % (key, klass, base, param, show(t)), 3)
+           % (key, klass, base, param, show(t)), 3, undecided=(t[0] != "filter"))
 
 
 def bias_consumers(chk: Check, rule: str, modules: List[str]) -> None:
